@@ -2542,6 +2542,8 @@ class Ctx:
         self.expected_counts: dict[str, int] = {}
         self.notes: list[str] = []
         self.deferred: list[AnalysisError] = []
+        self.soft_deferred: list[AnalysisError] = []
+        self._soft = 0
 
     def run(self, rule_fn, *args, **kwargs):
         """Evaluate one rule.  A rule that turns out undecidable is recorded and the remaining rules are still
@@ -2554,16 +2556,28 @@ class Ctx:
         # not evaluated (the run is undecidable anyway); rules of other families are.
         m_ = _re.match(r"r(\d\d)_", getattr(rule_fn, "__name__", ""))
         fam = f"R{m_.group(1)}" if m_ else None
-        failed = {d.rule.split(".")[0] for d in self.deferred}
+        failed = {d.rule.split(".")[0] for d in self.deferred + self.soft_deferred}
         if fam is not None and fam in failed:
             self.notes.append(f"{rule_fn.__name__} not evaluated: an earlier rule of {fam} was undecidable on this tree")
             return None
         try:
             return rule_fn(self, *args, **kwargs)
         except AnalysisError as e:
-            if not any((d.rule, d.where, d.reason) == (e.rule, e.where, e.reason) for d in self.deferred):
-                self.deferred.append(e)
+            tgt = self.soft_deferred if self._soft else self.deferred
+            if not any((d.rule, d.where, d.reason) == (e.rule, e.where, e.reason) for d in self.deferred + self.soft_deferred):
+                tgt.append(e)
             return None
+
+    def run_shared(self, bundle_fn, *args, **kwargs):
+        """Evaluate the rules of a mechanism this property borrows from another property (see props/shared.py).  Their
+        violations count here like any other.  If such a rule is undecidable on this tree, this property's own anchors are
+        still intact: the rule is listed as not decided (evidence, NOT-DECIDED line) and the verdict rests on the other
+        rules; the property that owns the mechanism fails closed (exit 2) on the same tree."""
+        self._soft += 1
+        try:
+            return self.run(bundle_fn, *args, **kwargs)
+        finally:
+            self._soft -= 1
 
     def analysed_func(self, f: Func):
         self.analysed.add(f"{f.module.name}.{f.qualname}")
